@@ -59,6 +59,11 @@ func main() {
 			fmt.Fprintln(os.Stderr, "error:", err)
 			os.Exit(2)
 		}
+		for _, cf := range e.cfiles {
+			for k, why := range cf.Broken {
+				fmt.Fprintf(os.Stderr, "BROKEN CONTRACT %s: %s\n", k, why)
+			}
+		}
 		var keys []string
 		for _, a := range fs.Args() {
 			if strings.HasSuffix(a, ":") { // whole package
